@@ -76,8 +76,10 @@ CFGS = {
     # ---- start-up faults ------------------------------------------------------------------------------------
     "MCRmQ": mc(GEN, RM="TRUE", Slots="2", MaxSeq="2", Kinds='{"mut", "adv"}', Keys='{"user"}', OldEvents="FALSE", BadEvents="FALSE",
                 Rollbacks="FALSE", MaxCrash="0", MaxSaves="0", MaxAcks="0", AllowClose="TRUE", Focus="TRUE"),
-    "MCRm": mc(GEN, RM="TRUE", Slots="3", MaxSeq="3", Kinds='{"mut", "sys", "adv"}', Keys='{"user"}', OldEvents="FALSE", BadEvents="FALSE",
-               Rollbacks="FALSE", MaxCrash="0", MaxSaves="0", MaxAcks="1", AllowClose="TRUE", Focus="TRUE"),
+    "MCRm": mc(GEN, RM="TRUE", Slots="3", MaxSeq="2", Kinds='{"mut", "adv"}', Keys='{"user"}', OldEvents="FALSE", BadEvents="FALSE",
+               Rollbacks="FALSE", MaxCrash="0", MaxSaves="0", MaxAcks="0", AllowClose="TRUE", Focus="TRUE"),
+    "MCRm2": mc(GEN, RM="TRUE", Slots="2", MaxSeq="3", Kinds='{"mut", "sys", "adv"}', Keys='{"user"}', OldEvents="FALSE", BadEvents="FALSE",
+                Rollbacks="FALSE", MaxCrash="0", MaxSaves="1", MaxAcks="1", AllowClose="TRUE", Focus="TRUE", RmUuids="{1}"),
     "SimRm": simc(GEN, 50, RM="TRUE", Slots="3", MaxSeq="3", NVB="2", Kinds='{"mut", "sys", "adv"}', Keys='{"user"}', OldEvents="FALSE",
                   BadEvents="FALSE", Rollbacks="FALSE", MaxCrash="0", MaxSaves="1", MaxAcks="2", AllowClose="TRUE", Focus="TRUE"),
     "SimRm2": simc(GEN, 44, RM="TRUE", Slots="2", RmUuids="{1}", MaxSeq="3", Kinds='{"mut", "del", "sys", "adv"}', Keys='{"user"}', OldEvents="FALSE",
